@@ -179,12 +179,15 @@ class EvalMixin:
         return self.branch(st, c, k, lambda s2: self.raise_builtin(s2, "TypeError", node))
 
     def non_none(self, st, v, node, k):
-        """attribute access on v: AttributeError if v is None (other non-object kinds are not modelled)."""
-        if v.ty and v.ty != "none":
+        """attribute access on v: AttributeError unless v is an object reference (None, numbers, strings and
+        builtin containers have none of the instance fields used by the code under contract)."""
+        if v.ty and v.ty.startswith("obj:"):
             return k(st)
-        if v.meta and v.meta[0] in ("class", "module", "func", "lambda", "pyconst", "tuple"):
+        if v.meta and v.meta[0] in ("class", "module", "func", "lambda", "pyconst", "tuple", "super"):
             return k(st)
-        c = z3.Not(smt.is_none(v.t))
+        if v.ty in ("none", "int", "bool", "str", "list", "dict", "set", "tuple", "real"):
+            return self.raise_builtin(st, "AttributeError", node)
+        c = z3.And(smt.is_ref(v.t), smt.CLS[Val.r(v.t)] >= smt.FIRST_USER_CLS)
         return self.branch(st, c, k, lambda s2: self.raise_builtin(s2, "AttributeError", node))
 
     def e_BinOp(self, e, st, k):
@@ -283,7 +286,36 @@ class EvalMixin:
     def e_Attribute(self, e, st, k):
         return self.ev(e.value, st, lambda st1, base: self.attr_load(st1, base, e.attr, e, k))
 
+    BUILTIN_METHOD_NAMES = {"append", "pop", "insert", "extend", "remove", "clear", "get", "items", "values", "keys", "setdefault",
+                            "update", "add", "discard", "upper", "lower", "strip", "startswith", "endswith", "join", "replace", "copy",
+                            "index", "count", "find", "split", "sort", "reverse", "format", "isdigit", "isalnum"}
+
+    def narrow(self, st, sv):
+        """Give a value of statically unknown kind a static hint when the path condition forces its kind."""
+        if sv.ty is not None or sv.meta is not None:
+            return sv
+        t = sv.t
+        cands = [
+            ("list", z3.And(smt.is_ref(t), z3.Or(smt.CLS[Val.r(t)] == smt.CLS_LIST, smt.CLS[Val.r(t)] == smt.CLS_TUPLE))),
+            ("dict", z3.And(smt.is_ref(t), smt.CLS[Val.r(t)] == smt.CLS_DICT)),
+            ("set", z3.And(smt.is_ref(t), smt.CLS[Val.r(t)] == smt.CLS_SET)),
+            ("str", smt.is_str(t)),
+            ("int", smt.is_int(t)),
+            ("bool", smt.is_bool(t)),
+        ]
+        for ty, fact in cands:
+            if not self.feasible(st, z3.Not(fact)):
+                return SV(t, ty)
+        return sv
+
     def attr_load(self, st, base, attr, node, k):
+        if base.ty is None and base.meta is None and attr in self.BUILTIN_METHOD_NAMES:
+            base = self.narrow(st, base)
+            if base.ty is None:
+                t = base.t
+                builtin_kind = z3.Or(smt.is_str(t), z3.And(smt.is_ref(t), smt.CLS[Val.r(t)] < smt.FIRST_USER_CLS))
+                if self.feasible(st, builtin_kind):
+                    raise Unsupported(f".{attr} on a value of unknown kind (line {getattr(node, 'lineno', '?')})")
         if base.meta and base.meta[0] == "super":
             _, me, cls = base.meta
             mro = list(type.mro(me_cls)) if (me_cls := self.static_class_of(me)) else list(cls.__mro__)
@@ -377,6 +409,7 @@ class EvalMixin:
         return self.ev(e.value, st, with_base)
 
     def slice_load(self, st, base, lo, hi, node, k):
+        base = self.narrow(st, base)
         if base.ty == "str":
             s = Val.s(base.t)
             n = z3.Length(s)
@@ -401,6 +434,7 @@ class EvalMixin:
         raise Unsupported(f"slice of {base.ty}")
 
     def subscript_load(self, st, base, idx, node, k):
+        base = self.narrow(st, base)
         if base.meta and base.meta[0] == "tuple":
             iv = z3.simplify(smt.N(idx))
             if z3.is_int_value(iv):
@@ -451,6 +485,7 @@ class EvalMixin:
         return self.typed(st, v, et) if et else SV(v)
 
     def store_subscript(self, st, base, slc, v, node):
+        base = self.narrow(st, base)
         if isinstance(slc, ast.Slice):
             if slc.step is not None:
                 raise Unsupported("slice step store")
@@ -469,9 +504,9 @@ class EvalMixin:
                 self.dict_store(st1, base.t, idx.t, v.t)
                 return [Outcome("next", st1)]
             if base.ty == "list":
-                n = self.list_len(st1, base.t)
+                n = self.name_int(st1, self.list_len(st1, base.t), "len")
                 i0 = smt.N(idx)
-                i = z3.If(i0 < 0, i0 + n, i0)
+                i = self.name_int(st1, z3.If(i0 < 0, i0 + n, i0), "idx")
                 ok = z3.And(i >= 0, i < n)
 
                 def do(s1):
@@ -487,19 +522,22 @@ class EvalMixin:
         """lst[a:b] = other  (list semantics)."""
         if base.ty != "list":
             raise Unsupported("slice store on non-list")
-        n = self.list_len(st, base.t)
+        n = self.name_int(st, self.list_len(st, base.t), "len")
         a, b = self.clamp_slice(st, n, lo, hi)
-        b = z3.If(b < a, a, b)
+        a = self.name_int(st, a, "lo")
+        b = self.name_int(st, z3.If(b < a, a, b), "hi")
         src = self.list_items(st, base.t)
 
         def with_list(s1, vv):
-            m = self.list_len(s1, vv.t)
+            m = self.name_int(s1, self.list_len(s1, vv.t), "len")
             vi = self.list_items(s1, vv.t)
             arr = smt.fresh("spl", z3.ArraySort(IntS, Val))
             j = z3.Int(f"j!spl{self._qid()}")
             s1.assume(z3.ForAll([j], z3.Implies(z3.And(j >= 0, j < a), arr[j] == src[j]), patterns=[arr[j]]))
             s1.assume(z3.ForAll([j], z3.Implies(z3.And(j >= 0, j < m), arr[a + j] == vi[j]), patterns=[vi[j]]))
             s1.assume(z3.ForAll([j], z3.Implies(z3.And(j >= b, j < n), arr[j - b + a + m] == src[j]), patterns=[src[j]]))
+            s1.assume(z3.ForAll([j], z3.Implies(z3.And(j >= a + m, j < n - (b - a) + m), arr[j] == src[j + b - a - m]), patterns=[arr[j]]))
+            s1.assume(z3.ForAll([j], z3.Implies(z3.And(j >= a, j < a + m), arr[j] == vi[j - a]), patterns=[arr[j]]))
             self.set_list(s1, base.t, arr, n - (b - a) + m)
             return [Outcome("next", s1)]
 
@@ -527,7 +565,7 @@ class EvalMixin:
     def iter_plan(self, st, it, node):
         kind = it[0]
         if kind == "seq":
-            v = it[1]
+            v = self.narrow(st, it[1])
             if v.meta and v.meta[0] == "tuple":
                 return ("static", list(v.meta[1]))
             if v.meta and v.meta[0] == "pyconst" and isinstance(v.meta[1], (tuple, list)):
